@@ -8,6 +8,7 @@ import (
 	"go/types"
 	"os"
 	"path/filepath"
+	"regexp"
 	"sort"
 	"strings"
 
@@ -73,6 +74,8 @@ type Ctx struct {
 	lemmaDecl []string
 }
 
+var qualIfaceRe = regexp.MustCompile(`^([a-z][A-Za-z0-9_]*)\.([A-Z][A-Za-z0-9_]*)\.([A-Za-z0-9_]+)$`)
+
 // Axiom is a global assertion, included in a query only when its symbol occurs.
 type Axiom struct {
 	Sym   string
@@ -114,7 +117,7 @@ func loadCtx(repoDir string, overlay map[string][]byte) (*Ctx, error) {
 		funcs: map[string]*FuncInfo{}, funcByObj: map[*types.Func]*FuncInfo{},
 		contracts: map[string]*Contract{}, libs: map[string]*Contract{},
 		dirs: &Directives{Immutable: map[string]bool{}, Devirt: map[string]string{}, Drop: map[string]bool{},
-			GhostVars: map[string]string{}, GhostFields: map[string]string{}, Defines: map[string]*Define{}},
+			GhostVars: map[string]string{}, GhostFields: map[string]string{}, Defines: map[string]*Define{}, Pending: map[string]bool{}},
 		specFiles: map[string]*ast.File{}, repoDir: repoDir,
 		declared: map[string]bool{}, typeTags: map[string]int{}, structDT: map[string]bool{},
 		specFuncs: map[string]*specFuncInfo{}, litNames: map[string]string{}, immutOK: map[string]string{},
@@ -258,6 +261,20 @@ func (c *Ctx) loadContracts(libDir string) error {
 		}
 		for _, ct := range cs {
 			key := path + "." + ct.Name
+			// pkg.Iface.Method: a contract for an interface method of an imported package
+			if m := qualIfaceRe.FindStringSubmatch(ct.Name); m != nil {
+				for _, imp := range f.Imports {
+					ip := strings.Trim(imp.Path.Value, `"`)
+					name := shortPkg(ip)
+					if imp.Name != nil {
+						name = imp.Name.Name
+					}
+					if name == m[1] {
+						key = ip + "." + m[2] + "." + m[3]
+						ct.PkgPath = path
+					}
+				}
+			}
 			if ct.Kind == "invariant" {
 				key = "inv:" + key
 			}
@@ -526,4 +543,72 @@ func constToTerm(c *Ctx, cv constant.Value, t types.Type) *Term {
 		return IntLit(int64(f))
 	}
 	panic("constToTerm: unsupported constant " + cv.String())
+}
+
+// checkImmutables verifies the `immutable` directives: no assignment to such a field exists in
+// the loaded packages outside composite literals and constructor-style functions (init*/New*/new*).
+func (c *Ctx) checkImmutables() error {
+	var bad []string
+	for _, p := range c.pkgs {
+		for _, f := range p.Syntax {
+			for _, d := range f.Decls {
+				fd, ok := d.(*ast.FuncDecl)
+				if !ok || fd.Body == nil {
+					continue
+				}
+				ctor := strings.HasPrefix(fd.Name.Name, "init") || strings.HasPrefix(fd.Name.Name, "New") || strings.HasPrefix(fd.Name.Name, "new")
+				check := func(e ast.Expr) {
+					sel, ok := ast.Unparen(e).(*ast.SelectorExpr)
+					if !ok {
+						return
+					}
+					s := p.TypesInfo.Selections[sel]
+					if s == nil {
+						return
+					}
+					fv, ok := s.Obj().(*types.Var)
+					if !ok || !fv.IsField() {
+						return
+					}
+					// owner: the struct type that declares the field
+					recv := s.Recv()
+					idx := s.Index()
+					t := recv
+					for _, i := range idx[:len(idx)-1] {
+						if e, ok := deref(t); ok {
+							t = e
+						}
+						t = t.Underlying().(*types.Struct).Field(i).Type()
+					}
+					if e, ok := deref(t); ok {
+						t = e
+					}
+					if c.isImmutable(t, fv) && !ctor {
+						pos := c.fset.Position(sel.Pos())
+						bad = append(bad, fmt.Sprintf("%s:%d: assignment to immutable field %s.%s", shortFile(pos.Filename), pos.Line, t, fv.Name()))
+					}
+				}
+				ast.Inspect(fd.Body, func(n ast.Node) bool {
+					switch x := n.(type) {
+					case *ast.AssignStmt:
+						for _, l := range x.Lhs {
+							check(l)
+						}
+					case *ast.IncDecStmt:
+						check(x.X)
+					case *ast.UnaryExpr:
+						if x.Op == token.AND {
+							check(x.X)
+						}
+					}
+					return true
+				})
+			}
+		}
+	}
+	if len(bad) > 0 {
+		return fmt.Errorf("immutable directive violated:\n%s", strings.Join(bad, "\n"))
+	}
+	c.notes["fields declared immutable are assigned only in composite literals and constructor-style functions (init*/New*/new*): checked by scanning every assignment in the loaded packages"] = true
+	return nil
 }
